@@ -751,7 +751,9 @@ def stopCommitReq (s : St) : St :=
     let s := emit (.cancelReq r.k) s
     match s.envCommit with
     | some (ek, tag) => handleCommitError cfg inner (.ext ek tag) r.delay r.attempt { s with commitReq := none }
-    | none => { s with commitReq := some { r with cancelled := true } }
+    -- the client swallowed the cancel: the request is forgotten (`stop()` clears `_commit_req` before it returns and
+    -- nothing reads it in between); its late result is dropped by `_in_this_run` - the event is not enabled any more
+    | none => { s with commitReq := none }
   | none => s
 
 /-- `stop()`: the commit retry timer and the auto-commit looper -/
